@@ -108,6 +108,14 @@ CHECKS = {
             'node tag is selected, with unchanged node values; the written ASCII file is well-formed XML and equals the %.6g rendering of the arrays.',
             'Only vtu_output_format = ASCII is parsed back; cell counts, bounds and worlds as listed. The tag rule is the one the tool implements and its help text describes.',
             'DESIGN.md section 3 C18'),
+    'C08': ('exploration', 'E1',
+            'bounded exhaustive enumeration (full product of 6 base worlds x rigid motions: rotation angle x translation in cartesian worlds, common longitude offsets x query longitude aliases in spherical worlds) with a metamorphic oracle: moved world at moved point against base world at base point',
+            'Six base worlds containing every feature and model type, a curved trench, single and two-segment ridges with varying spreading velocity, depth surfaces given at points and a cross section are written with every '
+            'coordinate of the file moved by g (feature coordinates, dip points, ridge coordinates, depth-surface points, cross section; plume azimuths for rotations) and queried at g(p) for every probe p, in 3-D and through the 2-D '
+            'interface; tag, compositions, temperature and grains must agree with the unmoved world up to rounding. Exact motions (quarter turns, half-lattice translations) must agree exactly on points lying on polygon edges, '
+            'corners and constant depth limits. Spherical worlds are shifted by every longitude offset of the alphabet, including ones carrying features across +-180 and to longitudes near +-360, and queried through L, L+360 and L-360.',
+            'Probes within 0.1 m / 1e-6 degree of a tag / composition change or on a temperature jump are skipped and counted. One known finding (slab / fault trench written with longitudes outside (-180,180]) is pinned by a reference output.',
+            'DESIGN.md section 3 C08'),
 }
 NOT_YET = {}
 
